@@ -46,8 +46,9 @@ pub fn decode<B: Buf>(size: u8, buf: &mut B) -> Result<Vec<u8>, Error> {
         return Err(Error::UnexpectedEnd);
     }
     if flags & 1 != 0 {
-        // The Huffman decoder addresses the bits of its input with 32-bit positions
-        u32::try_from((len as u64).saturating_mul(8))?;
+        // The Huffman decoder addresses the bits of its input with 32-bit positions,
+        // and looks up to 8 bits past its current position
+        u32::try_from((len as u64).saturating_mul(8).saturating_add(8))?;
     }
 
     let payload = buf.copy_to_bytes(len);
